@@ -71,6 +71,10 @@ def matcher_sites(repo, res):
 
 
 def is_matcher_ctor(res, expr):
+    if isinstance(expr, ast.IfExp):
+        return is_matcher_ctor(res, expr.body) or is_matcher_ctor(res, expr.orelse)
+    if isinstance(expr, ast.BoolOp):
+        return any(is_matcher_ctor(res, v) for v in expr.values)
     return isinstance(expr, ast.Call) and res.instantiates(expr, 'ResourceMatcher')
 
 
